@@ -394,6 +394,14 @@ def gen_prices(rng, spec, prof):
     rows = []
     t = max(0, start - rng.choice([0, 100, step]))
     sres = spec["sim"]["sim_h3_search_resolution"]
+    # a third of the tables also hold negative tariffs (the station pays the vehicle: legal, the loader takes any float) and tariffs of exactly 0
+    odd = rng.random() < prof.get("p_price_odd", 0.33)
+
+    def price():
+        if odd and rng.random() < 0.35:
+            return rng.choice([0.0, round(-rng.uniform(0.01, 0.5), 3)])
+        return round(rng.uniform(0, 1), 3)
+
     for b in range(rng.randint(1, 6)):
         t += rng.choice([0, 1, step, 7 * step, rng.randint(0, 20 * step)]) if b else 0
         for s in stations:
@@ -407,7 +415,7 @@ def gen_prices(rng, spec, prof):
                 key = s["id"]
             for p in s["plugs"]:
                 if full or rng.random() < 0.8:
-                    rows.append([int(t), key, p["charger"], round(rng.uniform(0, 1), 3)])
+                    rows.append([int(t), key, p["charger"], price()])
     rows.sort(key=lambda r: r[0])
     return {"by": by, "rows": rows}
 
